@@ -555,6 +555,32 @@ func (rn *runner) run(in *input) {
 	}
 	unmod := before.equal(snapshot(t))
 
+	// Referee issue 1 (the "caller's transaction is not modified" clause is carried by the run, not
+	// by a theorem): the deep snapshot above sees t.Data[:len] only.  Sign the same transaction again
+	// with Data as a sub-slice of ONE larger buffer (cap > len, sentinel bytes behind it): a write
+	// through the aliased rlp.Data(t.Data) / an append onto it lands in the sentinel.  The bytes must
+	// be the same as with a separately allocated Data and the buffer must be unchanged.
+	if in.Kind == kindKeyPair && in.Data != nil && len(t.Data) <= 4096 {
+		ar := cv.NewArena(len(t.Data) + 64)
+		t2 := in.build()
+		t2.Data = ethtypes.HexBytes0xPrefix(ar.Put(t2.Data))
+		ar.Put(bytes.Repeat([]byte{0xa5}, 40))
+		asnap := ar.Snapshot()
+		before2 := snapshot(t2)
+		outA, clsA := callSign(t2, in.Mode, secp256k1.KeyPairFromBytes(key), in.Chain)
+		_, plA, _, _ := callPayload(t2, in.Mode, in.Chain)
+		if clsA != cls || !bytes.Equal(outA, out) || !bytes.Equal(plA, pl) || !ar.Unchanged(asnap) || !before2.equal(snapshot(t2)) {
+			st.ImplFailures = append(st.ImplFailures, map[string]interface{}{
+				"what": "signing a transaction whose Data is a sub-slice of a larger buffer (cap > len) wrote behind the caller's slice, modified it, or gave different bytes",
+				"key":  "", "input": in})
+		}
+		if n, ok := st.Extra["arena_data_signed"].(int); ok {
+			st.Extra["arena_data_signed"] = n + 1
+		} else {
+			st.Extra["arena_data_signed"] = 1
+		}
+	}
+
 	// ---- statistics ----
 	st.Hit("mode:" + modeNames[in.Mode])
 	st.Hit("kind:" + in.Kind)
